@@ -349,6 +349,41 @@ fn async_deserialize_chunk_header<R: AsyncRead + Unpin>(reader: &mut R) -> (r: R
         /*@C07*/ r matches Ok((buf, idx)) ==> multi_data_ok(old(reader).bytes(), old(reader).pos(), Seq::empty(), buf@, idx@),
 //@ end
 
+// ==== stream adapters (deserialize_async.rs): a byte stream is wrapped in tokio_util's StreamReader and handed to the async multi-chunk decoder ====
+pub trait Buf {}
+// futures::Stream of byte buffers: in the model, the concatenation of everything it will yield
+pub trait Stream { type Item; spec fn content(&self) -> Seq<u8>; }
+// tokio_util::io::StreamReader: an AsyncRead over the concatenated buffers of the stream
+pub struct StreamReader<S> { pub s: S, pub ghost p: nat, pub ghost data: Seq<u8> }
+impl<S: Stream> StreamReader<S> {
+    #[verifier::external_body]
+    fn new(stream: S) -> (r: StreamReader<S>) ensures r.data == stream.content(), r.p == 0 { unimplemented!() }
+}
+impl<S> Read for StreamReader<S> {
+    open spec fn bytes(&self) -> Seq<u8> { self.data }
+    open spec fn pos(&self) -> nat { self.p }
+    #[verifier::external_body]
+    fn read_exact(&mut self, buf: &mut [u8]) -> (r: Result<(), IoError>) { unimplemented!() }
+}
+impl<S> AsyncRead for StreamReader<S> {}
+impl<S> Unpin for StreamReader<S> {}
+
+//@ extract cas_object/src/cas_chunk_format/deserialize_async.rs fn deserialize_chunks_to_writer_from_stream
+//@ ret r
+//@ contract
+    requires multi_domain(stream.content(), 0),
+    ensures
+        /*@C07*/ r matches Ok((n, idx)) ==> multi_ok(stream.content(), 0, old(writer).written(), final(writer).written(), n, idx@),
+//@ end
+
+//@ extract cas_object/src/cas_chunk_format/deserialize_async.rs fn deserialize_chunks_from_stream
+//@ ret r
+//@ contract
+    requires multi_domain(stream.content(), 0),
+    ensures
+        /*@C07*/ r matches Ok((buf, idx)) ==> multi_data_ok(stream.content(), 0, Seq::empty(), buf@, idx@),
+//@ end
+
 } // verus!
 const _: () = assert!(CAS_CHUNK_HEADER_LENGTH == std::mem::size_of::<CASChunkHeader>());
 fn main() {}
